@@ -38,10 +38,43 @@ PROPS["C04"] = {
 }
 
 
+INST_ASSUME = ["recording filter / clock / RNG stand in for the host's (Filter, Clock, Rng are traits of the public API)",
+               "RNG-scaled timer durations are compared by kind only",
+               "Announce octet 46 (reserved, not written by the serializer) is masked in emitted frames"]
+
+PROPS["C05"] = {
+    "streams": [{"name": "cmp"}, {"name": "bmca"}, {"name": "inst"}],
+    "rule": "cmp: the data set comparison on explicit data sets — exhaustive over all pairs of a 480/960-element domain "
+            "(priority1, priority2, [accuracy], GM identity, stepsRemoved 0/1/2/3/254, sender, receiver clock, receiving port) plus "
+            "random data sets over the full field ranges; bmca: up to three masters (small-domain GM attributes, GM-consistent or "
+            "deliberately not) heard on up to three ports after a varied first round (prior states), BMCA through PtpInstance::bmca, "
+            "with permuted arrival/port orders as an order-independence oracle; inst: the mixed host-call stream, compared after "
+            "every BMCA op (port states and all data sets). distinct = distinct op lines with a non-empty observation",
+    "explanation": "Lean theorems: antisymmetry, strict-weak-order characterisation, Ebest maximality, order independence of the "
+                   "selection, decision table = Figure 33 spec; model tied by differential runs through the real BMCA",
+    "assumptions": INST_ASSUME + ["Spec/StateDecision.lean is our transcription of Figure 33 (trusted)"],
+}
+
+
+def split_obs(obs):
+    """(items, status, state) of an instance-stream observation line"""
+    parts = obs.split(" | ")
+    if len(parts) < 2:
+        return obs, obs, ""
+    return parts[0], parts[1], " | ".join(parts[2:])
+
+
 def projection(pid, stream, profile):
     """returns f(op_line, observation_line) -> comparable value or None (= not compared for this property)"""
     def ident(op, obs):
         return obs
+    if stream in ("inst", "bmca") and pid == "C05":
+        def f(op, obs):
+            if not op.startswith("BMCA"):
+                return None
+            items, status, state = split_obs(obs)
+            return status + " | " + state
+        return f
     return ident
 
 
@@ -71,4 +104,4 @@ def replay_body(pid, stream, ops, idx):
     return ops[idx] + "\n"
 
 
-STATEFUL = set()
+STATEFUL = {"inst", "bmca"}
